@@ -24,21 +24,25 @@ RULE = ('case = seeded history of nested high-compatibility blocks around a spec
         'specification outside the mode; non-trivial = an exception left a block, or blocks were nested, or a breach was present; '
         'distinct = case digest')
 HC_RE = re.compile(r'[A-Z0-9_-]+')
-BREACHES = [None, None, 'lower_name', 'bad_set_identifier', 'bad_header_id', 'signed_data', 'channel_two_frames', 'channel_no_frame',
+BREACHES = [None, None, 'lower_name', 'empty_name', 'bad_set_identifier', 'bad_header_id', 'signed_data', 'channel_two_frames', 'channel_no_frame',
             'nonuniform_index', 'bad_units', 'bad_index_type', 'bad_eq_type', 'bad_eq_location', 'bad_attr_units']
 
 
 def build(rng, breach, px='', fid='f0'):
     spec = gen.Spec(rng, fid=fid, px=px)
     sid = 'SET-%d' % rng.randint(0, 9) if breach != 'bad_set_identifier' else 'Set id with spaces'
+    empty_where = rng.choice(['set_identifier', 'header_id', 'frame', 'zone', 'origin']) if breach == 'empty_name' else None
+    if empty_where == 'set_identifier':
+        sid = ''                     # a name of length 0 does not match [A-Z0-9_-]+ either
     spec.new_file(mrl=gen.record_length(rng, small=0.3), set_identifier=sid)
-    lfi = spec.logical_file(fh_id='HEADER-1' if breach != 'bad_header_id' else 'header one')
+    lfi = spec.logical_file(fh_id=('HEADER-1' if empty_where != 'header_id' else '') if breach != 'bad_header_id' else 'header one')
     n_or = rng.choice([1, 1, 2])
     for k in range(n_or):
         kw = {'creation_time': {'$dt': '2020-03-04T05:06:07', 'tz': None}}
         if rng.random() < 0.3:
             kw['file_set_number'] = rng.randint(1, 500)
-        spec.emit({'op': 'add', 'lf': lfi['lf'], 'kind': 'origin', 'h': spec.h('o'), 'name': 'ORIGIN-%d' % k, 'kwargs': kw})
+        spec.emit({'op': 'add', 'lf': lfi['lf'], 'kind': 'origin', 'h': spec.h('o'),
+                   'name': 'ORIGIN-%d' % k if not (empty_where == 'origin' and k == n_or - 1) else '', 'kwargs': kw})
     rows = rng.choice([3, 5, 8])
     idx_rc, _ = gen.index_recipe(rng, rows, dtype=rng.choice(['f8', 'f4', 'u2', 'u4']),
                                  mode='noisy' if breach == 'nonuniform_index' else rng.choice(['uniform', 'uniform_dec', 'near']))
@@ -49,7 +53,9 @@ def build(rng, breach, px='', fid='f0'):
     fkw = {}
     if indexed:
         fkw['index_type'] = 'my index' if breach == 'bad_index_type' else rng.choice(['BOREHOLE-DEPTH', 'VERTICAL-DEPTH', 'NON-STANDARD'])
-    spec.frame(lfi, 'MAIN', [c0, c1], **fkw)
+    spec.frame(lfi, 'MAIN' if empty_where != 'frame' else '', [c0, c1], **fkw)
+    if empty_where == 'zone':
+        spec.add(lfi, 'zone', '')
     if breach == 'channel_two_frames':
         c2 = spec.channel(lfi, 'CH-2', gen.array_recipe(rng, rows, dtype='f4'))
         spec.frame(lfi, 'SECOND', [c2, c1])
